@@ -50,6 +50,22 @@ def one_case(ctx, P, l, a, o, r):
     if ro != exp_o:
         ctx.fail({**inp, 'clause': 'import after a caller edited an earlier result'},
                  'a second import of the same spelling is affected by edits to the pitch object an earlier import returned', impl=ro, expected=exp_o['ok'])
+    # a pitch named in the '#' notation (constructor or setter) is the same pitch: it exports to the same spelling
+    if a > 0:
+        sharp_name = LETTERS[l] + '#' * a
+        for how in ('constructor', 'setter'):
+            def via_sharp():
+                if how == 'constructor':
+                    q = P.AgnosticPitch(sharp_name, o)
+                else:
+                    q = P.AgnosticPitch(LETTERS[l], o)
+                    q.name = sharp_name
+                return {'name': q.name, 'export': P.HumdrumPitchExporter().export_pitch(q), 'accidentals': q.accidentals() if hasattr(q, 'accidentals') and callable(q.accidentals) else None}
+            rs = call(via_sharp)
+            ctx.seen({**inp, 'clause': "named with '#' (%s)" % how}, True)
+            if 'ok' not in rs or rs['ok']['name'] != agn_name(l, a) or rs['ok']['export'] != s:
+                ctx.fail({**inp, 'clause': "named with '#' (%s)" % how, 'given_name': sharp_name},
+                         "a pitch named in the '#' notation is not the pitch of the '+' notation (name / exported spelling)", impl=rs, expected={'name': agn_name(l, a), 'export': s})
     # export twice, snapshots
     p = P.AgnosticPitch(ri['ok']['name'], ri['ok']['octave'])
     before = (p.name, p.octave)
